@@ -20,7 +20,7 @@ def main(tier, seed):
                        'every other generated GIR includes two further namespaces and refers to their types (records of the same '
                        'name in both, a pointer="1" record); deeper dependency chains are exercised by C17/C15', 'sizes/alignments/offsets of records are C08\'s subject and compared only between '
                        'decoder and API here']
-    ck.prove(['gen_c06.py'], models=['Model/C06.vo'])
+    ck.prove(['gen_c06.py', 'gen_c02.py'], models=['Model/C06.vo', 'Model/C06K.vo'])
     ok, out = c_build()
     exe = None
     if ok:
@@ -133,6 +133,43 @@ def main(tier, seed):
         ck.extra['programs'] = len(jobs)
         ck.extra['disagreements_checked'] = len(jobs)
         ck.extra['typelib_bytes_decoded'] = nbytes
+    # the key under which serialize_type shares the blobs of C arrays, against Model.C06K.key_carray
+    kexe, kout = c_driver('key_driver', os.path.join(ROOT, 'cshim', 'key_driver.c'), exclude=('girnode',))
+    if not kexe:
+        ck.tie_broken('build', 'key driver does not build:\n' + kout[-1500:])
+    else:
+        krng = random.Random(seed * 13 + 1)
+        rows = []
+        for _ in range(400 if tier == 'quick' else 6000):
+            rows.append((krng.choice([0, 1, 2, 3, 4, 5, 6, 7, 8, 9, 10, 11, 12, 13, 14, 21]), krng.randint(0, 1), krng.randint(0, 1),
+                         krng.choice([0, 1, 2, 7, 10, 99, 65535, 70000]), krng.randint(0, 1), krng.choice([0, 1, 4, 16, 100, 4096, 65536]),
+                         krng.randint(0, 1), krng.randint(0, 1)))
+        kp = subprocess.run([kexe], input='\n'.join(' '.join(str(x) for x in r) for r in rows) + '\n', capture_output=True, text=True, timeout=120)
+        lines = kp.stdout.splitlines()
+        if kp.returncode != 0 or len(lines) != len(rows):
+            ck.tie_broken('correspondence', 'key driver failed (rc=%d, %d of %d lines)' % (kp.returncode, len(lines), len(rows)), detail=None)
+        elif ck.models_ok:
+            from common import cstr, clist, cbool, coq_eval, parse_defs, parse_nlist
+            items = []
+            for i, (r, l) in enumerate(zip(rows, lines)):
+                ek, ak = l.split('\t')
+                items.append('(%d, {| ka_elem := %s; ka_has_len := %s; ka_len := %d; ka_has_size := %s; ka_size := %d; ka_zero := %s; ka_ptr := %s |}, %s)'
+                             % (i, cstr(ek), cbool(r[2]), r[3], cbool(r[4]), r[5], cbool(r[6]), cbool(r[7]), cstr(ak)))
+                ck.count_case(dict(array=r), kind='array-key')
+            text = '\n'.join(['From Coq Require Import List NArith Bool.', 'From GIV.Lib Require Import Regex Str.',
+                              'From GIV.Model Require Import C07T C06K.', 'Import ListNotations.', 'Local Open Scope N_scope.',
+                              'Definition cases : list (N * carray * str) := [%s].' % ';\n'.join(items),
+                              "Definition bad := Eval vm_compute in map (fun c => fst (fst c)) (filter (fun c => let '(_, a, k) := c in",
+                              '  negb (str_eqb (key_carray a) k)) cases).', 'Print bad.'])
+            rc, out = coq_eval('C06K_keys', text)
+            if rc != 0:
+                ck.tie_broken('correspondence', 'key case file does not evaluate:\n' + out[-1500:])
+            else:
+                badk = parse_nlist(parse_defs(out)['bad'])
+                if badk:
+                    ck.tie_broken('correspondence', 'serialize_type gives another key than Model.C06K.key_carray for %d arrays' % len(badk),
+                                  dict(array=rows[badk[0]], key=lines[badk[0]]))
+            ck.extra['array_keys_compared'] = len(rows)
     return ck.finish(level='proof',
                      rule='seeded GIR documents of 3-16 entries over every element kind and attribute combination the '
                           'generator knows (see harness/girgen.py), compiled by the real g-ir-compiler (exit status, '
